@@ -67,6 +67,12 @@ Definition g_weekday (idx : Z) (n : option Z) : gres wd :=
 Definition g_parse (ig : bool) (s : str) : gres dt :=
   match parse_date ig s with DOk d => GOk d | DBad => GExc XValue | DUn => GExc XUnm end.
 
+(* parm.split('TZID=')[-1]: the text after the last 'TZID=', the whole string when there is none *)
+Definition split_last_tzid (s : str) : str :=
+  match after_last_tzid s with Some x => x | None => s end.
+(* d.replace(tzinfo=t) *)
+Definition dt_with_tz (d : dt) (t : Z) : dt := mkdt (dy d) (dmo d) (dd d) (dh d) (dmi d) (ds d) (dus d) t.
+
 (* for i in range(len(x)): if x[i] not in set: break   -- the value of i afterwards (x non-empty) *)
 Fixpoint first_not_in (set x : str) : option nat :=
   match x with
